@@ -16,4 +16,4 @@ for seed in ${SEEDS:-1}; do
   tail -1 $OUT/$id.log | cut -c1-200
  done
 done
-git -C /repo worktree remove --force $WT; rm -rf $OUT
+git -C /repo worktree remove --force $WT; cp $OUT/*.log /tmp/ 2>/dev/null; rm -rf $OUT
